@@ -387,6 +387,43 @@ def route_group(rng, allow_repeats=False):
     return {"descrs": route_descrs(rng, objs, st, ptxt, allow_repeats), "ctx": {"domain": DOMAIN, "problem": ptxt}}
 
 
+# ----- values that are Python ints (findings D90 / D91): PDDLFunction keeps the object it is given
+INT_VALUES = [0, 1, -1, 3, 10, -7, 42, 2 ** 53, -(2 ** 31), 10 ** 15]
+
+
+def int_group(rng):
+    """the same abstract state with integral values, built with floats (constructors, ProblemParser) and with Python
+    ints handed to set_value / with never-set fluents (value 0); all pairs; the library's reader on every text"""
+    objs = route_objects(rng)
+    st = route_state(rng, objs, False)
+    if not st["fluents"]:
+        st["fluents"].append(["h", [], fhex(0.0)])
+    st = {"facts": st["facts"], "fluents": [[f, a, fhex(float(rng.choice(INT_VALUES))) if rng.random() < 0.8 else v]
+                                            for f, a, v in st["fluents"]]}
+    if rng.random() < 0.5:
+        st["fluents"][0][2] = fhex(0.0)
+    ptxt = problem_text(rng, objs, st)
+
+    def variant(mark):
+        d = ctor_from_abstract(st, types=dict(objs))
+        for (_, f), (_, _, v) in zip(d["fluents"], st["fluents"]):
+            x = unhex(v)
+            if mark == "unset" and x == 0 and math.copysign(1, x) > 0:
+                f["unset"] = True
+            elif mark in ("int", "some") and math.isfinite(x) and x == int(x) and not (x == 0 and math.copysign(1, x) < 0) \
+                    and (mark == "int" or rng.random() < 0.5):
+                f["ival"] = int(x)
+        return d
+    descrs = [dict(variant(None), want=st, kind="int:floats"),
+              dict(variant("int"), want=st, kind="int:set_value(int)"),
+              dict(variant("some"), want=st, kind="int:set_value(int)"),
+              dict(variant("unset"), want=st, kind="int:never-set"),
+              {"route": "problem", "domain": DOMAIN, "problem": ptxt, "want": st, "kind": "route:problem"},
+              {"route": "copy", "of": 1, "want": st, "kind": "int:copy"},
+              {"route": "copy", "of": 3, "want": st, "kind": "int:copy"}]
+    return {"descrs": descrs, "ctx": {"domain": DOMAIN, "problem": ptxt}}
+
+
 # ----- process-level sequences: ordinary states, then unrelated library calls in the same process, then the same
 # ----- states again and new ones
 def noise_steps(rng, objs, repeats):
@@ -475,8 +512,9 @@ def cgp(g):
 
 
 def cpf(f):
-    return "{| pf_name := %s; pf_sig := %s; pf_val := %s; pf_rep := %s |}" % (
-        cstr(f["name"]), cpairs(f["sig"]), hexlit(f["val"]), cpairs(f["rep"], lambda k: "%d%%nat" % k))
+    return "{| pf_name := %s; pf_sig := %s; pf_val := %s; pf_rep := %s; pf_int := %s |}" % (
+        cstr(f["name"]), cpairs(f["sig"]), hexlit(f["val"]), cpairs(f["rep"], lambda k: "%d%%nat" % k),
+        cbool(not f.get("is_float", True)))
 
 
 def cmstate(d):
@@ -513,6 +551,21 @@ def src_rep(descrs, i):
     return False
 
 
+def src_int(descrs, i):
+    """INPUT-side classifier of findings D90 / D91: the description of state i, or of the state it is copied /
+    derived from, stores a Python int in a fluent ('ival') or never sets it ('unset')"""
+    d = descrs[i]
+    if d.get("route") == "ctor" and any("ival" in f or f.get("unset") for _, f in d["fluents"]):
+        return "D91" if any(f.get("unset") for _, f in d["fluents"]) else "D90"
+    if "of" in d:
+        return src_int(descrs, d["of"])
+    return None
+
+
+def klass_of(descrs, i):
+    return src_int(descrs, i) or ("D07" if src_rep(descrs, i) else None)
+
+
 def crb(r):
     if r is None:
         return "None"
@@ -524,10 +577,11 @@ def crb(r):
 def csinfo(descrs, i, info):
     descr = descrs[i]
     return ("{| si_dump := %s; si_want := %s; si_ser := %s; si_self_eq := %s; si_copy_eq := %s; si_copy_ser := %s; "
-            "si_indep := %s; si_src_rep := %s; si_rb_with := %s; si_rb_ded := %s |}") % (
+            "si_indep := %s; si_src_rep := %s; si_src_int := %s; si_rb_with := %s; si_rb_ded := %s |}") % (
         cmstate(info.get("dump", EMPTY_DUMP)), cwant(descr.get("want")), cobs_val(info.get("ser"), cstr),
         cobs_val(info.get("self_eq"), cbool), cobs_val(info.get("copy_eq"), cbool), cobs_val(info.get("copy_ser"), cstr),
-        cobs_val(info.get("indep"), cbool), cbool(src_rep(descrs, i)), crb(info.get("rb_with")), crb(info.get("rb_ded")))
+        cobs_val(info.get("indep"), cbool), cbool(src_rep(descrs, i)), cbool(src_int(descrs, i) is not None),
+        crb(info.get("rb_with")), crb(info.get("rb_ded")))
 
 
 def values_of(descrs, infos):
@@ -582,7 +636,7 @@ def build_groups(rng, tier):
     ex = exhaustive_group(tier)
     groups.append({"descrs": ex, "kind": "exhaustive"})
     # build-order permutations of the exhaustive universe, compared with the canonical builds
-    n_perm = 20 if tier == "quick" else 250
+    n_perm = 20 if tier == "quick" else 180
     for _ in range(n_perm):
         base = rng.choice(ex)["want"]
         ds = [dict(ctor_from_abstract(base), want=base, kind="exhaustive")]
@@ -591,18 +645,20 @@ def build_groups(rng, tier):
         other = rng.choice(ex)["want"]
         ds.append(permuted_variant(rng, other, rng.randint(0, 5)))
         groups.append({"descrs": ds, "kind": "build-order"})
-    for _ in range(36 if tier == "quick" else 450):
+    for _ in range(36 if tier == "quick" else 340):
         groups.append({"descrs": random_group(rng, big=rng.random() < 0.3), "kind": "random"})
-    for _ in range(16 if tier == "quick" else 200):
+    for _ in range(16 if tier == "quick" else 130):
         groups.append(dict(route_group(rng, allow_repeats=False), kind="routes"))
     for _ in range(6 if tier == "quick" else 30):
         groups.append(dict(route_group(rng, allow_repeats=True), kind="routes-with-repeated-arguments"))
+    for _ in range(6 if tier == "quick" else 24):
+        groups.append(dict(int_group(rng), kind="int-values"))
     return groups
 
 
 def build_sequences(rng, tier):
     """process-level sequences; most of them put repeated-argument texts (the D07 area) between the observations"""
-    n = 6 if tier == "quick" else 48
+    n = 6 if tier == "quick" else 36
     return [sequence_input(rng, repeats=(k % 6 != 5)) for k in range(n)]
 
 
@@ -696,7 +752,7 @@ def run(args):
     # groups whose texts carry repeated arguments (the D07 area) never share a process with the ordinary groups, and
     # every sequence (ordinary states / unrelated calls / the same states again) is one job in a process of its own.
     # A replay of one group or of one sequence in a fresh process is therefore the same experiment.
-    apart = [i for i, g in enumerate(groups) if g["kind"] in ("witness", "routes-with-repeated-arguments")]
+    apart = [i for i, g in enumerate(groups) if g["kind"] in ("witness", "routes-with-repeated-arguments", "int-values")]
     plain = [i for i in range(len(groups)) if i not in apart]
     results = [None] * len(groups)
     for idxs in (plain, apart):
@@ -742,7 +798,8 @@ def run(args):
     stats = {"groups": {}, "states_by_kind": {}, "pairs_equal": 0, "pairs_unequal": 0, "pairs_raised": 0,
              "pairs_same_abstract_state_different_build": 0, "states": 0, "indep_deep_false": 0,
              "values": {"nan": 0, "neg_zero": 0, "inf": 0, "exponent_form_repr": 0, "subnormal_or_huge": 0, "other": 0},
-             "states_with_repeated_fluent_argument": 0, "empty_states": 0, "library_readback_observed": 0,
+             "states_with_repeated_fluent_argument": 0, "states_with_int_valued_fluent": 0, "empty_states": 0,
+             "library_readback_observed": 0,
              "library_readback_equal": 0, "successors_with_expected_value": 0, "build_raised": 0,
              "sequence_noise": noise_stats}
     ROWS_PER_LIT = 24
@@ -767,6 +824,7 @@ def run(args):
             rept = src_rep(descrs, i)
             stats["states_with_repeated_fluent_argument"] += 1 if rept else 0
             stats["build_raised"] += 1 if "build_raised" in info else 0
+            stats["states_with_int_valued_fluent"] += 1 if any(not f.get("is_float", True) for _, f in info.get("dump", EMPTY_DUMP)["fluents"]) else 0
             if w is not None and not w["facts"] and not w["fluents"]:
                 stats["empty_states"] += 1
             if w is not None and d.get("route") == "succ":
@@ -787,7 +845,7 @@ def run(args):
             state_cases.append({"lit": LazyLit(lambda env=env, i=i: "{| g_env := %s; g_cases := [CState %d] |}" % (env, i)),
                                 "input": {"group": rg, "state": si, "implementation": info},
                                 "nontrivial": bool(info.get("dump", EMPTY_DUMP)["preds"] or info.get("dump", EMPTY_DUMP)["fluents"]),
-                                "witness_of": g.get("witness_of"), "klass": "D07" if rept else None})
+                                "witness_of": g.get("witness_of"), "klass": klass_of(descrs, i)})
         for (i, j), pr in zip(all_pairs(n), r["pairs"]):
             if "value" in pr:
                 stats["pairs_equal" if pr["value"] else "pairs_unequal"] += 1
@@ -801,7 +859,9 @@ def run(args):
             pair_cases.append({"lit": LazyLit(lambda env=env, i=i, j=j, pr=pr: "{| g_env := %s; g_cases := [CPair %d %d %s] |}" % (
                                    env, i, j, cobs_val(pr, cbool))),
                                "input": {"group": rg, "pair": [si, sj], "implementation": pr},
-                               "nontrivial": i != j, "witness_of": g.get("witness_of"), "klass": "D07" if rept else None})
+                               "nontrivial": i != j, "witness_of": g.get("witness_of"),
+                               "klass": ("D91" if "D91" in (klass_of(descrs, i), klass_of(descrs, j)) else
+                                         klass_of(descrs, i) or klass_of(descrs, j))})
         # literals: state cases + rows, split so that no literal carries more than ROWS_PER_LIT rows
         rows = ["CRow %d %s" % (i, cstr("".join(pair_char(r["pairs"][i * n + j]) for j in range(n)))) for i in range(n)]
         first = True
@@ -823,7 +883,9 @@ def run(args):
                                      max_bytes=140_000)
     decide(rep, PROP, "Corr.C14", cases, verdicts, info, explain_expr="explain_group %s", header_extra=HEADER)
     # CPython / library facts the theorems' hypotheses talk about
-    expected_vf = {"pos_neg_zero_equal": False, "nan_equal_to_itself": True, "int_vs_float": False}
+    # (int_vs_float -- is a state holding the int 3 equal to one holding 3.0 -- is reported, not demanded: findings D90 / D91
+    # and the proposed repair of D90 are about exactly that; the model follows the dump either way)
+    expected_vf = {"pos_neg_zero_equal": False, "nan_equal_to_itself": True}
     facts_ok = all(vf.get(k) == v for k, v in expected_vf.items()) and ff.get("str_is_repr") and \
         all(r_[1] == h for h, r_ in ff["reprs"].items())
     if not facts_ok:
@@ -854,7 +916,7 @@ def run(args):
                    "A case is non-trivial when the state is non-empty (state cases) or the two states are different objects (pair cases); distinct by input hash.")
     cov["samples"] = [c["input"] for c in cases[1:3]] + [c["input"] for c in cases[-2:]]
     rep.assumptions = [
-        "fluent values are Python floats (every parser / effect route stores float(...) results; an int stored through set_value prints as '3' and compares unequal to 3.0: value_facts.int_vs_float)",
+        "the theorems' state_ok demands float values (what every parser / effect route stores); Python ints (set_value(int), the never-set default 0) are modelled (pf_int), refuted (C14_eq_int_refuted, C14_eq_unset_refuted) and listed as findings D90 / D91",
         "values are compared through repr(): -0.0 and 0.0 are different values, nan is equal to itself (value_facts; theorems C14_eq_ieee_* state the exact difference to IEEE comparison)",
         "float(repr(x)) == x re-checked on every value of this run (%d values)" % len(ff["reprs"]),
         "ASCII names without blanks or parentheses",
